@@ -78,9 +78,10 @@ CHECKS = {
        "keeps only the options. Dead-at-connect: the outcome (state and events) of an accepted clean-start CONNECT, sent or received, depends "
        "on the options only - receive maxima, counters, alias tables, keep-alive values, is_client, store, in-flight sets, handled ids and "
        "identifiers in use of two objects may differ arbitrarily and the results are EQUAL; so a reused object equals a fresh one after the "
-       "CONNECT and every script yields equal events and return values (determinism). PARTIAL: allocator bounds as a step invariant and the "
-       "whole-trace comparison on the CONNACK(session not present) path are decided by the paired-run monitor (reused vs fresh implementation "
-       "object: events + full digest) and the correspondence.",
+       "CONNECT and every script yields equal events and return values (determinism); the allocator bounds are proved invariant under EVERY call "
+       "(walk through all functions of the model), so this holds after every history of a freshly constructed object with no hypothesis on the "
+       "state. PARTIAL: the whole-trace comparison on the CONNACK(session not present) path is decided by the paired-run monitor (reused vs fresh "
+       "implementation object: events + full digest) and the correspondence.",
   ref="DESIGN.md §3 C10",
   note=CONN_NOTE + " Paired cases: the application releases the ids it holds before reusing the object; offline publishing is configured between connections.",
   technique="Coq all-states state-equality proofs (dead-at-connect) + determinism + paired-run differential monitor on two implementation objects"),
